@@ -116,16 +116,34 @@ def pred_text(P, tp, marker):
     return "%s: %s" % (tp, marker)
 
 
+def type_entry_text(P, tp, l):
+    """the explicit Type entry of one level, in the spelling the item uses"""
+    if P.get("conc_ty"):
+        return "Wc_%s" % l
+    tf = P.get("ty_form")
+    if tf == "binder_fn":
+        return "for<'a> fn(&'a %s) -> W_%s<%s>" % (tp, l, tp)          # a type that STARTS with a binder is still a type entry
+    if tf == "paren":
+        return "(W_%s<%s>)" % (l, tp)
+    if tf == "ref":
+        return "&'static W_%s<%s>" % (l, tp)
+    if tf == "qpath":
+        return "<W_%s<%s> as ::dx_support::Idt>::Same" % (l, tp)
+    if tf == "dyn":
+        return "dyn ::core::ops::Fn(%s) -> W_%s<%s>" % (tp, l, tp)
+    return "W_%s<%s>" % (l, tp)
+
+
 def bound_src(P, b, level_id):
     """`bound(...)` text for BoundOpt b written at level level_id, or None when absent"""
     tp = first_type_param(P) or "u8"
     pred = pred_text(P, tp, "M_%s" % lid(level_id))
     if P.get("pred_form") == "trailing_comma" and b in ("P", "T", "ddP", "ddT"):
         # bound(P,) / bound(.., P,): a trailing comma inside the list
-        ty0 = ("Wc_%s" % lid(level_id)) if P.get("conc_ty") else "W_%s<%s>" % (lid(level_id), tp)
+        ty0 = type_entry_text(P, tp, lid(level_id))
         return {"P": "bound(%s,)" % pred, "T": "bound(%s,)" % ty0, "ddP": "bound(.., %s,)" % pred, "ddT": "bound(.., %s,)" % ty0}[b]
     # (conc_ty: the explicit Type entries name no generic parameter at all - they count all the same)
-    ty = ("Wc_%s" % lid(level_id)) if P.get("conc_ty") else "W_%s<%s>" % (lid(level_id), tp)
+    ty = type_entry_text(P, tp, lid(level_id))
     return {"absent": None, "empty": "bound()", "P": "bound(%s)" % pred, "dd": "bound(..)", "Pdd": "bound(%s, ..)" % pred,
             "T": "bound(%s)" % ty, "Tdd": "bound(%s, ..)" % ty, "ddP": "bound(.., %s)" % pred, "ddT": "bound(.., %s)" % ty}[b]
 
@@ -349,7 +367,7 @@ def tag_texts(P, form):
         ids = [sid + ".h." + a for a in HELPERS] + [sid + ".this", sid + ".common"]
         for x in ids:
             out.append(("pred@" + x, pred_text(P, tp, "M_%s" % lid(x))))
-            out.append(("ty@" + x, form_atom(("Wc_%s" % lid(x)) if P.get("conc_ty") else "W_%s<%s>" % (lid(x), tp), t, form)))
+            out.append(("ty@" + x, form_atom(type_entry_text(P, tp, lid(x)), t, form)))
     scope(P["tb"], "t")
     for vi, v in enumerate(P["variants"]):
         if P["kind"] == "enum":
